@@ -133,7 +133,7 @@ def check_program(env, prog, tags, label):
         named_all = set(counts)
         named_multi = {n for n, c in counts.items() if c > 1}
         combos = [(v, ar, rf, ws) for v in VERSIONS for ar in (None, True, False) for rf in (None, custom_ref) for ws in (True, False)]
-        chosen = [c for c in combos if c[2] is None and c[3]] if not env.quick() else rng.sample(combos, 6) + [(v, None, None, True) for v in rng.sample(VERSIONS, 3)]
+        chosen = [c for c in combos if c[2] is None and c[3]] + rng.sample([c for c in combos if not (c[2] is None and c[3])], 10) if not env.quick() else rng.sample(combos, 6) + [(v, None, None, True) for v in rng.sample(VERSIONS, 3)]
         for vname, all_refs, rf, with_schema in chosen:
             version = getattr(JsonSchemaVersion, vname)
             kw = {"version": version, "with_schema": with_schema}
